@@ -86,8 +86,8 @@ func c18MatchComp(p, s string) bool {
 
 type c18Info struct {
 	overlap, recreated bool
-	slow                int
-	slowOps             []string
+	slow               int
+	slowOps            []string
 }
 
 var c18Mu sync.Mutex // the working directory is process-global
